@@ -1231,14 +1231,16 @@ func (r *RangeEntry) CheckValue(v val.Value) error {
 			return errNotExpectedValue
 		}
 	}
-	if !r.Min.Empty() {
+	// "min" as lower and "max" as upper bound leave that side open, the limits
+	// of the base type and of the typedefs below are checked on their own
+	if !r.Min.Empty() && !r.Min.isMin {
 		if cmp, err := r.Min.Compare(v); err != nil {
 			return err
 		} else if cmp > 0 {
 			return errOutsideRange
 		}
 	}
-	if !r.Max.Empty() {
+	if !r.Max.Empty() && !r.Max.isMax {
 		if cmp, err := r.Max.Compare(v); err != nil {
 			return err
 		} else if cmp < 0 {
@@ -1262,7 +1264,7 @@ func (n RangeNumber) IsMax() bool {
 }
 
 func (n RangeNumber) IsMin() bool {
-	return n.isMax
+	return n.isMin
 }
 
 func (n RangeNumber) Integer() *int64 {
@@ -1285,40 +1287,42 @@ func (n RangeNumber) String() string {
 	return n.str
 }
 
-func (n RangeNumber) getUnit64() uint64 {
+var errRangeNumber = errors.New("invalid number range comparison")
+
+func (n RangeNumber) getUnit64() (uint64, error) {
 	if n.unsigned != nil {
-		return *n.unsigned
+		return *n.unsigned, nil
 	}
 	if n.integer != nil && *n.integer >= 0 {
-		return uint64(*n.integer)
+		return uint64(*n.integer), nil
 	}
 	if n.float != nil && *n.float >= 0 {
-		return uint64(*n.float)
+		return uint64(*n.float), nil
 	}
-	panic("invalid number range comparison")
+	return 0, errRangeNumber
 }
 
-func (n RangeNumber) getInt64() int64 {
+func (n RangeNumber) getInt64() (int64, error) {
 	if n.integer != nil {
-		return *n.integer
+		return *n.integer, nil
 	}
 	if n.float != nil {
-		return int64(*n.float)
+		return int64(*n.float), nil
 	}
-	panic("invalid number range comparison")
+	return 0, errRangeNumber
 }
 
-func (n RangeNumber) getFloat64() float64 {
+func (n RangeNumber) getFloat64() (float64, error) {
 	if n.float != nil {
-		return *n.float
+		return *n.float, nil
 	}
 	if n.integer != nil {
-		return float64(*n.integer)
+		return float64(*n.integer), nil
 	}
 	if n.unsigned != nil {
-		return float64(*n.unsigned)
+		return float64(*n.unsigned), nil
 	}
-	panic("invalid number range comparison")
+	return 0, errRangeNumber
 }
 
 func (n RangeNumber) Compare(v val.Value) (int64, error) {
@@ -1343,7 +1347,10 @@ func (n RangeNumber) Compare(v val.Value) (int64, error) {
 	} else {
 		switch v.Format() {
 		case val.FmtDecimal64:
-			a := n.getFloat64()
+			a, err := n.getFloat64()
+			if err != nil {
+				return 0, err
+			}
 			b := v.Value().(float64)
 			if a < b {
 				return -1, nil
@@ -1353,7 +1360,10 @@ func (n RangeNumber) Compare(v val.Value) (int64, error) {
 			}
 			return 0, nil
 		case val.FmtUInt64:
-			a := n.getUnit64()
+			a, err := n.getUnit64()
+			if err != nil {
+				return 0, err
+			}
 			b := v.Value().(uint64)
 			if a < b {
 				return -1, nil
@@ -1364,7 +1374,10 @@ func (n RangeNumber) Compare(v val.Value) (int64, error) {
 			return 0, nil
 		default:
 			if i, ok := v.(val.Int64able); ok {
-				a := n.getInt64()
+				a, err := n.getInt64()
+				if err != nil {
+					return 0, err
+				}
 				b := i.Int64()
 				if a < b {
 					return -1, nil
@@ -1432,6 +1445,15 @@ var errListItemsRangeVaries = errors.New("values in list vary on both inside and
 
 func (r *Range) CheckValue(v val.Value) error {
 	if len(r.Entries) == 0 {
+		return nil
+	}
+	if l, isList := v.(val.Listable); isList {
+		// every item has to be inside one of the alternatives on its own
+		for i := 0; i < l.Len(); i++ {
+			if err := r.CheckValue(l.Item(i)); err != nil {
+				return err
+			}
+		}
 		return nil
 	}
 	for _, e := range r.Entries {
